@@ -250,6 +250,10 @@ func (p *Parser) parseTaxa() (int64, map[string]bool, error) {
 		case EOF:
 			err = fmt.Errorf("end of file within a TAXA block (no END;)")
 			stoptaxa = true
+		case BEGIN:
+			// Blocks do not nest: the TAXA block was not terminated
+			err = fmt.Errorf("BEGIN within a TAXA block (no END;)")
+			stoptaxa = true
 		case END:
 			tok2, _ := p.scanIgnoreWhitespace()
 			if tok2 != ENDOFCOMMAND {
@@ -347,6 +351,10 @@ func (p *Parser) parseData() (names []string, sequences map[string]string, nchar
 			stopdata = true
 		case EOF:
 			err = fmt.Errorf("end of file within a TAXA block (no END;)")
+			stopdata = true
+		case BEGIN:
+			// Blocks do not nest: the DATA block was not terminated
+			err = fmt.Errorf("BEGIN within a DATA block (no END;)")
 			stopdata = true
 		case END:
 			tok2, _ := p.scanIgnoreWhitespace()
